@@ -43,6 +43,7 @@ class ReactiveDevice:
     self.nopen = 0
     self.lids = {}
     self.later = []         # messages released when the first host WRTE arrives
+    self.ack_writes = True
 
   def write(self, data, timeout_ms=None):
     self.sched.yield_('usb.write')
@@ -60,7 +61,7 @@ class ReactiveDevice:
       rid = 70 + self.nopen
       self.lids[self.nopen] = (a0, rid)
       self.rx.extend(self.uf.frame('OKAY', rid, a0))
-    elif cmd == 'WRTE':
+    elif cmd == 'WRTE' and self.ack_writes:
       self.rx.extend(self.uf.frame('OKAY', a1, a0))
 
   def push(self, n, data):
@@ -135,6 +136,25 @@ def scenario(name, tmo):
                threading.Thread(target=reader, args=(s1, 'Rb', 1), name='Rb'),
                threading.Thread(target=writer, args=(s2, 'W', 'q'), name='W')]
         box['expect'] = None
+      elif name == 'rwt':        # one stream: the writer's ack never comes and its wait times out while it
+        st = conn.open_stream('shell:x', timeout_ms=5000)   # holds the reader role; data for the reader arrives later
+        dev.ack_writes = False
+
+        def writer_short(st_, tag, data):
+          try:
+            st_.write(data, timeout_ms=500)
+            log.append((tag, 'write-ok'))
+          except Exception as e:  # pylint: disable=broad-except
+            log.append((tag, 'write-timeout', type(e).__name__))
+
+        def late():
+          import time
+          time.sleep(1.0)
+          dev.push(1, 'abc')
+        ths = [threading.Thread(target=reader, args=(st, 'R'), name='R'),
+               threading.Thread(target=writer_short, args=(st, 'W', 'xyz'), name='W'),
+               threading.Thread(target=late, name='D')]
+        box['expect'] = None
       elif name == 'rr3':        # two streams: B's first message is read (and queued) by A's reader,
         s1 = conn.open_stream('shell:1', timeout_ms=5000)   # B's second one comes straight off the wire
         s2 = conn.open_stream('shell:2', timeout_ms=5000)
@@ -175,6 +195,11 @@ def judge(name, tmo, box):
     got = ''.join(sorted(''.join(e[2] for e in box['log'] if e[1] == 'read')))
     if got not in ('', 'a', 'ab'):
       bad.append('rrw: the two readers of one stream obtained %r, the device wrote a then b' % got)
+  if name == 'rwt' and not bad:
+    if ('R', 'read', 'abc') not in log:
+      bad.append('rwt: the reader did not obtain the data that arrived after the writer of the same stream had timed out')
+    if not any(e[0] == 'W' and e[1] == 'write-timeout' for e in box['log']):
+      bad.append('rwt: a write whose acknowledgement never came did not raise by its timeout')
   if name == 'rr3' and not bad:
     rb = ''.join(e[2] for e in sorted(box['log']) if e[0].startswith('RB') and e[1] == 'read')
     ra = ''.join(e[2] for e in box['log'] if e[0] == 'RA' and e[1] == 'read')
@@ -185,7 +210,7 @@ def judge(name, tmo, box):
   if dev is not None:
     wr = sum(1 for c in dev.host if c[0] == 'WRTE')
     acks = collections.Counter((c[1], c[2]) for c in dev.host if c[0] == 'OKAY')
-    sent = {'rw1': {1: 1}, 'rr2': {1: 1, 2: 1}, 'rrw': {1: 2}, 'rr3': {1: 1, 2: 2}}[name]
+    sent = {'rw1': {1: 1}, 'rr2': {1: 1, 2: 1}, 'rrw': {1: 2}, 'rr3': {1: 1, 2: 2}, 'rwt': {1: 1}}[name]
     for n, cnt in sent.items():
       lid, rid = dev.lids[n]
       if acks.get((lid, rid), 0) != cnt:
@@ -223,6 +248,13 @@ def design(chk):
     neg = tlc.run('ReadUntil', 'ReadUntil_%s.cfg' % cfgname, workers=1)
     if not neg.deadlock:
       raise tlc.TLCError('sensitivity: ReadUntil_%s should deadlock' % cfgname)
+  res_t = tlc.must_pass(tlc.run('ReadUntil', 'ReadUntil_timeout.cfg', workers=1), 'ReadUntil (lock holder gives up by timeout)')
+  chk.add_tlc('ReadUntil: the reader role is given up by a timeout, waiters still woken', res_t)
+  neg = tlc.run('ReadUntil', 'ReadUntil_noexitnotify.cfg', workers=1)
+  if not neg.deadlock:
+    raise tlc.TLCError('sensitivity: ReadUntil_noexitnotify should deadlock')
+  chk.cov['model_sensitivity_3'] = ('ReadUntil.tla without the notification when the reader role is given up by a '
+                                    'timeout/exception deadlocks (waiting reader never woken)')
   chk.cov['model_sensitivity'] = ('ReadUntil.tla with the protocol as originally pinned (notify before releasing the '
                                   'reader lock) and with the half repair deadlocks in TLC; the full repair terminates')
   res = tlc.must_pass(tlc.run('ReadForStream_mc', 'ReadForStream_mc.cfg', workers=4), 'ReadForStream design check')
@@ -265,7 +297,7 @@ def emit_replay(chk, pool, limit, ops, wire, dev, dataseqs, illegal='"AUTH"', st
 
 def dfs(chk, pool, bound, maxruns):
   jobs = []
-  for name in ('rw1', 'rr2', 'rrw', 'rr3'):
+  for name in ('rw1', 'rr2', 'rrw', 'rr3', 'rwt'):
     for tmo in (None, 2000):
       jobs.append((name, tmo, bound, (), maxruns))
   outs = pool.map(explore_scenario, jobs)
@@ -278,7 +310,7 @@ def dfs(chk, pool, bound, maxruns):
       chk.violation(sig, det)
     chk.tlc_runs.append(dict(name='dfs %s timeout=%s bound=%d' % (j[0], j[1], bound), schedules=o['n'],
                              outcomes=dict(o['outcomes'])))
-  chk.sample(dict(part='schedules', scenarios=['rw1', 'rr2', 'rrw', 'rr3'], explored=total))
+  chk.sample(dict(part='schedules', scenarios=['rw1', 'rr2', 'rrw', 'rr3', 'rwt'], explored=total))
   chk.log('%d schedules of reader/writer threads explored' % total)
 
 
@@ -295,7 +327,7 @@ def main(chk):
     else:
       emit_replay(chk, pool, 4, 4, 2, 2, [('a',), ('a', 'b', 'a')])
       emit_replay(chk, pool, 5, 5, 1, 1, [('a', 'b', 'a', 'b', 'a')], illegal='"CNXN", "OPEN"', streams=3)
-      emit_replay(chk, pool, 4, 5, 3, 3, [('a',)], streams=2, readlens='0, 1, 2, 3', devseqs=(('a', 'b'), ('a',), ('b', 'b', 'a')))
+      emit_replay(chk, pool, 4, 4, 3, 3, [('a',)], streams=1, readlens='0, 1, 2, 3', devseqs=(('a', 'b'), ('a',), ('b', 'b', 'a')))
       dfs(chk, pool, 2, 60000)
   chk.cov['rule'] = ('mux histories: host operations interleaved with device messages over 2-3 streams, enumerated by '
                      'TLC; schedules: every interleaving with <= 1 (quick) / 2 (thorough) preemptions of reader/writer '
